@@ -4,7 +4,7 @@ run the pinned suite, the check(s) of the given property ids (first id = owner),
 and record the change under seeded/<PID>-r2m<i>/ with the measured results.  Prints one summary line per mutation."""
 import glob, json, os, re, shutil, subprocess, sys
 V = os.path.dirname(os.path.dirname(os.path.abspath(__file__)))
-R = "/tmp/try-repo"
+R = os.environ.get("MUT_REPO", "/tmp/try-repo")
 env = dict(os.environ, GOFLAGS="-mod=mod", GOPROXY="off", GOSUMDB="off", GOTOOLCHAIN="local")
 def sh(cmd, cwd=None, timeout=3000, e=None):
     p = subprocess.run(cmd, shell=True, cwd=cwd, env=e or env, stdout=subprocess.PIPE, stderr=subprocess.STDOUT, timeout=timeout)
